@@ -17,6 +17,7 @@ import (
 
 	"github.com/anishathalye/porcupine"
 	"github.com/whatap/golib/util/list"
+	"github.com/whatap/golib/util/queue"
 
 	"verif/lmap"
 	"verif/pmap"
@@ -441,13 +442,233 @@ func linLinkedList(c *vlib.Ctx, r *vlib.Rand, label string, gomax int) {
 	}
 }
 
+// ---- queue.RequestQueue / RequestDoubleQueue ---------------------------------------------
+//
+// The property names the request queues and "size, enqueue, dequeue" explicitly. Histories use
+// the non-blocking operations (a blocking Get belongs to C11's wake-up oracle); the bounded
+// instances are kept full most of the time so that PutForce takes its evict-then-add path
+// next to Size observers.
+
+type qOp struct {
+	Name string
+	V    int64
+}
+
+func (o qOp) String() string {
+	if strings.HasPrefix(o.Name, "Put") {
+		return fmt.Sprintf("%s(%d)", o.Name, o.V)
+	}
+	return o.Name + "()"
+}
+
+type qRes struct {
+	Has bool
+	V   int64
+}
+
+type qState struct {
+	A, B string // the two lanes, elements rendered "v," (strings keep the state comparable)
+}
+
+func qlen(s string) int { return strings.Count(s, ",") }
+func qpop(s string) (string, int64) {
+	i := strings.Index(s, ",")
+	var v int64
+	fmt.Sscan(s[:i], &v)
+	return s[i+1:], v
+}
+
+// qStep is the sequential model: lane A is the single queue (or queue1), lane B queue2.
+func qStep(st qState, op qOp, capA, capB int) (qState, qRes) {
+	put := func(lane string, cp int, force bool) (string, qRes) {
+		if cp <= 0 || qlen(lane) < cp {
+			return lane + fmt.Sprint(op.V) + ",", qRes{true, 1}
+		}
+		if !force {
+			return lane, qRes{true, 0}
+		}
+		for qlen(lane) >= cp {
+			lane, _ = qpop(lane)
+		}
+		return lane + fmt.Sprint(op.V) + ",", qRes{true, 0}
+	}
+	switch op.Name {
+	case "Put", "Put1":
+		var r qRes
+		st.A, r = put(st.A, capA, false)
+		return st, r
+	case "PutForce", "PutForce1":
+		var r qRes
+		st.A, r = put(st.A, capA, true)
+		return st, r
+	case "Put2":
+		var r qRes
+		st.B, r = put(st.B, capB, false)
+		return st, r
+	case "PutForce2":
+		var r qRes
+		st.B, r = put(st.B, capB, true)
+		return st, r
+	case "GetNoWait":
+		var v int64
+		if qlen(st.A) > 0 {
+			st.A, v = qpop(st.A)
+			return st, qRes{true, v}
+		}
+		if qlen(st.B) > 0 {
+			st.B, v = qpop(st.B)
+			return st, qRes{true, v}
+		}
+		return st, qRes{}
+	case "Size":
+		return st, qRes{true, int64(qlen(st.A) + qlen(st.B))}
+	case "Size1":
+		return st, qRes{true, int64(qlen(st.A))}
+	case "Size2":
+		return st, qRes{true, int64(qlen(st.B))}
+	case "Clear":
+		return qState{}, qRes{}
+	}
+	return st, qRes{}
+}
+
+func b2i(b bool) int64 {
+	if b {
+		return 1
+	}
+	return 0
+}
+
+func linQueue(c *vlib.Ctx, r *vlib.Rand, label string, gomax int, double bool) {
+	caps := []int{0, 1, 2, 3, 4}
+	capA, capB := caps[r.Intn(len(caps))], caps[r.Intn(len(caps))]
+	var names []string
+	var apply func(in interface{}) interface{}
+	tname := "RequestQueue"
+	var vid int64 = 100
+	get := func(v interface{}) interface{} {
+		if v == nil {
+			return qRes{}
+		}
+		return qRes{true, v.(int64)}
+	}
+	var sizeNow func() int
+	if !double {
+		q := queue.NewRequestQueue(capA)
+		capB = 0
+		names = []string{"Put", "PutForce", "PutForce", "GetNoWait", "Size", "Size", "Clear"}
+		for i := 0; i < capA; i++ { // start full: the eviction path is the interesting one
+			q.Put(atomic.AddInt64(&vid, 1))
+		}
+		sizeNow = q.Size
+		apply = func(in interface{}) interface{} {
+			op := in.(qOp)
+			switch op.Name {
+			case "Put":
+				return qRes{true, b2i(q.Put(op.V))}
+			case "PutForce":
+				return qRes{true, b2i(q.PutForce(op.V))}
+			case "GetNoWait":
+				return get(q.GetNoWait())
+			case "Size":
+				return qRes{true, int64(q.Size())}
+			case "Clear":
+				q.Clear()
+			}
+			return qRes{}
+		}
+	} else {
+		tname = "RequestDoubleQueue"
+		q := queue.NewRequestDoubleQueue(capA, capB)
+		names = []string{"Put1", "Put2", "PutForce1", "PutForce2", "GetNoWait", "Size", "Size1", "Size2", "Clear"}
+		for i := 0; i < capA; i++ {
+			q.Put1(atomic.AddInt64(&vid, 1))
+		}
+		for i := 0; i < capB; i++ {
+			q.Put2(atomic.AddInt64(&vid, 1))
+		}
+		sizeNow = q.Size
+		apply = func(in interface{}) interface{} {
+			op := in.(qOp)
+			switch op.Name {
+			case "Put1":
+				return qRes{true, b2i(q.Put1(op.V))}
+			case "Put2":
+				return qRes{true, b2i(q.Put2(op.V))}
+			case "PutForce1":
+				return qRes{true, b2i(q.PutForce1(op.V))}
+			case "PutForce2":
+				return qRes{true, b2i(q.PutForce2(op.V))}
+			case "GetNoWait":
+				return get(q.GetNoWait())
+			case "Size":
+				return qRes{true, int64(q.Size())}
+			case "Size1":
+				return qRes{true, int64(q.Size1())}
+			case "Size2":
+				return qRes{true, int64(q.Size2())}
+			case "Clear":
+				q.Clear()
+			}
+			return qRes{}
+		}
+	}
+	// initial state of the model = what the prologue put in
+	init := qState{}
+	{
+		var v int64 = 100
+		for i := 0; i < capA; i++ {
+			v++
+			init.A += fmt.Sprint(v) + ","
+		}
+		for i := 0; i < capB && double; i++ {
+			v++
+			init.B += fmt.Sprint(v) + ","
+		}
+	}
+	mk := func(rr *vlib.Rand) qOp {
+		n := names[rr.Intn(len(names))]
+		if n == "Clear" && rr.Intn(4) != 0 {
+			n = names[2]
+		}
+		return qOp{Name: n, V: atomic.AddInt64(&vid, 1)}
+	}
+	G := r.Range(3, 5)
+	progs := make([][]interface{}, G)
+	for g := range progs {
+		gr := r.Fork(fmt.Sprint("g", g))
+		for i := r.Range(4, 9); i > 0; i-- {
+			progs[g] = append(progs[g], mk(gr))
+		}
+	}
+	h, why := runConcurrent(progs, apply, gomax)
+	if why != "" {
+		stuckHistory(c, tname, label, why, progs)
+		return
+	}
+	pm := porcupine.Model{
+		Init: func() interface{} { return init },
+		Step: func(st, in, out interface{}) (bool, interface{}) {
+			ns, want := qStep(st.(qState), in.(qOp), capA, capB)
+			return want == out.(qRes), ns
+		},
+		Equal: func(a, b interface{}) bool { return a.(qState) == b.(qState) },
+	}
+	judge(c, tname, pm, h, label, map[string]interface{}{"capacity1": capA, "capacity2": capB, "initial": fmt.Sprint(init)})
+	c.Count("lin_queue_histories", 1)
+	if capA > 0 {
+		c.Count("lin_queue_histories_bounded_full_start", 1)
+	}
+	_ = sizeNow
+}
+
 func runLinearizability(c *vlib.Ctx) {
 	gomaxes := []int{4, 8, 16, 2}
 	n := c.N(4000, 200000)
 	if c.Flavour == "race" {
 		n = c.N(1500, 50000)
 	}
-	ntypes := len(lmap.Types) + len(pmap.Types) + 1
+	ntypes := len(lmap.Types) + len(pmap.Types) + 3
 	c.Cases("linearizability", n, func(i int, r *vlib.Rand) {
 		k := i % ntypes
 		label := fmt.Sprint("linearizability#", i)
@@ -457,10 +678,13 @@ func runLinearizability(c *vlib.Ctx) {
 			linLmap(c, lmap.Types[k], r, label, gm)
 		case k < len(lmap.Types)+len(pmap.Types):
 			linPmap(c, pmap.Types[k-len(lmap.Types)], r, label, gm)
-		default:
+		case k == len(lmap.Types)+len(pmap.Types):
 			linLinkedList(c, r, label, gm)
+		default:
+			linQueue(c, r, label, gm, k == ntypes-1)
 		}
 	})
+	c.Floor("lin_queue_histories", int64(n/c.NShards/ntypes/2), c.Counter("lin_queue_histories"))
 	c.Floor("lin_histories", int64(n/c.NShards/4), c.Counter("lin_histories"))
 	c.Floor("lin_histories_with_overlap", int64(n/c.NShards/40), c.Counter("lin_histories_with_overlap"))
 }
